@@ -52,6 +52,7 @@ def check_family(chk, name, info, fns, params, targets, engine, aeon, extra):
 
 def run(chk):
     thorough = chk.tier == 'thorough'
+    chk.bounds['families added after seeded changes'] = 'constants and zero-arity parameters as arguments of uninterpreted functions; shared symbols at different nesting depths'
     sks = fixed_skeletons() + gen_skeletons(chk.rng, 150 if thorough else 40)
     chk.bounds.update({'skeletons': f'{len(sks)} aeon networks with <= 3 variables (4 in two fixed ones): implicit functions of 1-3 regulators, explicit functions with uninterpreted symbols of arity 0-3 (repeated, swapped, nested, compound arguments), constants, negations, inputs',
                        'solver': 'truth tables of all unknown functions, all fresh constants and all input valuations are Boolean solver variables: {outputs(., c) | c} == {inputs_t | t} as two quantified obligations (forall c exists t / forall t exists c) over the tuple of all target variables',
